@@ -33,6 +33,41 @@ theorem selectU64Indexed_eq (w index findIth : Nat) :
     Gen.Ssa7.bitmap_selectU64Indexed w index findIth
       = sel64Tail w index findIth (trailingZeros64 (sel64Bigger index findIth)) := rfl
 
+/-- `biggerBits` lane by lane, with `c = 127 - i`: byte `k` of the difference is `q k + c`, and `& 0x80` keeps
+    `0x80` iff `q k + c ≥ 128` iff `i < q k` (written `/ 128 * 128`) -/
+theorem bigger_val (i c q0 q1 q2 q3 q4 q5 q6 q7 : Nat) (hi : i < 64) (hc : c + i = 127)
+    (b0 : q0 ≤ 64) (b1 : q1 ≤ 64) (b2 : q2 ≤ 64) (b3 : q3 ≤ 64) (b4 : q4 ≤ 64) (b5 : q5 ≤ 64) (b6 : q6 ≤ 64)
+    (b7 : q7 ≤ 64) :
+    sel64Bigger (pack [128 + q0, 128 + q1, 128 + q2, 128 + q3, 128 + q4, 128 + q5, 128 + q6, 128 + q7]) i
+      = pack [(q0 + c) / 128 * 128, (q1 + c) / 128 * 128, (q2 + c) / 128 * 128, (q3 + c) / 128 * 128,
+          (q4 + c) / 128 * 128, (q5 + c) / 128 * 128, (q6 + c) / 128 * 128, (q7 + c) / 128 * 128] := by
+  have e1 : mulU64 (addU64 i 1) 72340172838076673 = pack (List.replicate 8 (i + 1)) := by
+    simp only [mulU64, addU64, add64, M64, List.replicate, pack]
+    omega
+  have e2 : subU64 (pack [128 + q0, 128 + q1, 128 + q2, 128 + q3, 128 + q4, 128 + q5, 128 + q6, 128 + q7])
+      (pack (List.replicate 8 (i + 1)))
+      = pack [q0 + c, q1 + c, q2 + c, q3 + c, q4 + c, q5 + c, q6 + c, q7 + c] := by
+    simp only [subU64, sub64, M64, List.replicate, pack]
+    omega
+  have hbytes : Bytes [q0 + c, q1 + c, q2 + c, q3 + c, q4 + c, q5 + c, q6 + c, q7 + c] := by
+    intro a ha
+    simp only [List.mem_cons, List.not_mem_nil, or_false] at ha
+    rcases ha with rfl | rfl | rfl | rfl | rfl | rfl | rfl | rfl <;> omega
+  have e3 := pack_and 128 (by decide) _ hbytes
+  simp only [List.length_cons, List.length_nil, Nat.reduceAdd, List.map_cons, List.map_nil] at e3
+  have hor : (9259542123273814144 : Nat) = pack (List.replicate 8 128) := by decide
+  have a0 := and128 ⟨q0 + c, by omega⟩; have a1 := and128 ⟨q1 + c, by omega⟩
+  have a2 := and128 ⟨q2 + c, by omega⟩; have a3 := and128 ⟨q3 + c, by omega⟩
+  have a4 := and128 ⟨q4 + c, by omega⟩; have a5 := and128 ⟨q5 + c, by omega⟩
+  have a6 := and128 ⟨q6 + c, by omega⟩; have a7 := and128 ⟨q7 + c, by omega⟩
+  simp only at a0 a1 a2 a3 a4 a5 a6 a7
+  unfold sel64Bigger
+  rw [e1, e2, andU64_eq, hor, e3, a0, a1, a2, a3, a4, a5, a6, a7]
+
+theorem flag_eq {c i q : Nat} (hc : c + i = 127) (hq : q ≤ 64) :
+    (q + c) / 128 * 128 = if i < q then 128 else 0 := by
+  split <;> omega
+
 /-- `biggerBits`: bit 7 of byte `k` is set iff `i < p k`; with `k0` the first such byte the lowest set bit is
     `8*k0 + 7`.  (`p k` stands for the prefix popcount `popc w (8*(k+1))`.) -/
 theorem bigger_tz (p : Nat → Nat) (i k0 : Nat) (hk0 : k0 < 8) (hb : ∀ j, j < 8 → p j ≤ 64)
@@ -42,48 +77,39 @@ theorem bigger_tz (p : Nat → Nat) (i k0 : Nat) (hk0 : k0 < 8) (hb : ∀ j, j <
   have b0 := hb 0 (by decide); have b1 := hb 1 (by decide); have b2 := hb 2 (by decide); have b3 := hb 3 (by decide)
   have b4 := hb 4 (by decide); have b5 := hb 5 (by decide); have b6 := hb 6 (by decide); have b7 := hb 7 (by decide)
   have hi : i < 64 := by have := hhi 7 (by omega) (by decide); omega
-  have l0 := hlo 0; have l1 := hlo 1; have l2 := hlo 2; have l3 := hlo 3
-  have l4 := hlo 4; have l5 := hlo 5; have l6 := hlo 6; have l7 := hlo 7
-  have u0 := hhi 0; have u1 := hhi 1; have u2 := hhi 2; have u3 := hhi 3
-  have u4 := hhi 4; have u5 := hhi 5; have u6 := hhi 6; have u7 := hhi 7
-  -- the subtraction, lane by lane
-  have e1 : mulU64 (addU64 i 1) 72340172838076673 = pack (List.replicate 8 (i + 1)) := by
-    simp only [mulU64, addU64, add64, M64, List.replicate, pack]
-    omega
-  have e2 : subU64 (pack [128 + p 0, 128 + p 1, 128 + p 2, 128 + p 3, 128 + p 4, 128 + p 5, 128 + p 6, 128 + p 7])
-      (pack (List.replicate 8 (i + 1)))
-      = pack [128 + p 0 - (i + 1), 128 + p 1 - (i + 1), 128 + p 2 - (i + 1), 128 + p 3 - (i + 1),
-          128 + p 4 - (i + 1), 128 + p 5 - (i + 1), 128 + p 6 - (i + 1), 128 + p 7 - (i + 1)] := by
-    simp only [subU64, sub64, M64, List.replicate, pack]
-    omega
-  have hbytes : Bytes [128 + p 0 - (i + 1), 128 + p 1 - (i + 1), 128 + p 2 - (i + 1), 128 + p 3 - (i + 1),
-      128 + p 4 - (i + 1), 128 + p 5 - (i + 1), 128 + p 6 - (i + 1), 128 + p 7 - (i + 1)] := by
-    intro a ha
-    simp only [List.mem_cons, List.not_mem_nil, or_false] at ha
-    rcases ha with rfl | rfl | rfl | rfl | rfl | rfl | rfl | rfl <;> omega
-  have e3 := pack_and 128 (by decide) _ hbytes
-  simp only [List.length_cons, List.length_nil, Nat.reduceAdd, List.map_cons, List.map_nil] at e3
-  have hor : (9259542123273814144 : Nat) = pack (List.replicate 8 128) := by decide
-  have a0 := and128 ⟨128 + p 0 - (i + 1), by omega⟩; have a1 := and128 ⟨128 + p 1 - (i + 1), by omega⟩
-  have a2 := and128 ⟨128 + p 2 - (i + 1), by omega⟩; have a3 := and128 ⟨128 + p 3 - (i + 1), by omega⟩
-  have a4 := and128 ⟨128 + p 4 - (i + 1), by omega⟩; have a5 := and128 ⟨128 + p 5 - (i + 1), by omega⟩
-  have a6 := and128 ⟨128 + p 6 - (i + 1), by omega⟩; have a7 := and128 ⟨128 + p 7 - (i + 1), by omega⟩
-  simp only at a0 a1 a2 a3 a4 a5 a6 a7
-  unfold sel64Bigger
-  rw [e1, e2, andU64_eq, hor, e3, a0, a1, a2, a3, a4, a5, a6, a7]
+  have hc : (127 - i) + i = 127 := by omega
+  rw [bigger_val i (127 - i) _ _ _ _ _ _ _ _ hi hc b0 b1 b2 b3 b4 b5 b6 b7]
+  generalize 127 - i = c at hc ⊢
   simp only [pack]
-  generalize p 0 = q0 at *; generalize p 1 = q1 at *; generalize p 2 = q2 at *; generalize p 3 = q3 at *
-  generalize p 4 = q4 at *; generalize p 5 = q5 at *; generalize p 6 = q6 at *; generalize p 7 = q7 at *
+  rw [flag_eq hc b0, flag_eq hc b1, flag_eq hc b2, flag_eq hc b3, flag_eq hc b4, flag_eq hc b5, flag_eq hc b6,
+    flag_eq hc b7]
   have hk : k0 = 0 ∨ k0 = 1 ∨ k0 = 2 ∨ k0 = 3 ∨ k0 = 4 ∨ k0 = 5 ∨ k0 = 6 ∨ k0 = 7 := by omega
+  -- in each case the word is a closed term (`pack [0, …, 0, 128, …, 128]`) and `tz` is evaluated
   rcases hk with rfl | rfl | rfl | rfl | rfl | rfl | rfl | rfl
-  · rw [show _ = 0x8080808080808080 from by omega]; decide
-  · rw [show _ = 0x8080808080808000 from by omega]; decide
-  · rw [show _ = 0x8080808080800000 from by omega]; decide
-  · rw [show _ = 0x8080808080000000 from by omega]; decide
-  · rw [show _ = 0x8080808000000000 from by omega]; decide
-  · rw [show _ = 0x8080800000000000 from by omega]; decide
-  · rw [show _ = 0x8080000000000000 from by omega]; decide
-  · rw [show _ = 0x8000000000000000 from by omega]; decide
+  · rw [if_pos (hhi 0 (by decide) (by decide)), if_pos (hhi 1 (by decide) (by decide)), if_pos (hhi 2 (by decide) (by decide)), if_pos (hhi 3 (by decide) (by decide)),
+      if_pos (hhi 4 (by decide) (by decide)), if_pos (hhi 5 (by decide) (by decide)), if_pos (hhi 6 (by decide) (by decide)), if_pos (hhi 7 (by decide) (by decide))]
+    decide +kernel
+  · rw [if_neg (Nat.not_lt.mpr (hlo 0 (by decide))), if_pos (hhi 1 (by decide) (by decide)), if_pos (hhi 2 (by decide) (by decide)), if_pos (hhi 3 (by decide) (by decide)),
+      if_pos (hhi 4 (by decide) (by decide)), if_pos (hhi 5 (by decide) (by decide)), if_pos (hhi 6 (by decide) (by decide)), if_pos (hhi 7 (by decide) (by decide))]
+    decide +kernel
+  · rw [if_neg (Nat.not_lt.mpr (hlo 0 (by decide))), if_neg (Nat.not_lt.mpr (hlo 1 (by decide))), if_pos (hhi 2 (by decide) (by decide)), if_pos (hhi 3 (by decide) (by decide)),
+      if_pos (hhi 4 (by decide) (by decide)), if_pos (hhi 5 (by decide) (by decide)), if_pos (hhi 6 (by decide) (by decide)), if_pos (hhi 7 (by decide) (by decide))]
+    decide +kernel
+  · rw [if_neg (Nat.not_lt.mpr (hlo 0 (by decide))), if_neg (Nat.not_lt.mpr (hlo 1 (by decide))), if_neg (Nat.not_lt.mpr (hlo 2 (by decide))), if_pos (hhi 3 (by decide) (by decide)),
+      if_pos (hhi 4 (by decide) (by decide)), if_pos (hhi 5 (by decide) (by decide)), if_pos (hhi 6 (by decide) (by decide)), if_pos (hhi 7 (by decide) (by decide))]
+    decide +kernel
+  · rw [if_neg (Nat.not_lt.mpr (hlo 0 (by decide))), if_neg (Nat.not_lt.mpr (hlo 1 (by decide))), if_neg (Nat.not_lt.mpr (hlo 2 (by decide))), if_neg (Nat.not_lt.mpr (hlo 3 (by decide))),
+      if_pos (hhi 4 (by decide) (by decide)), if_pos (hhi 5 (by decide) (by decide)), if_pos (hhi 6 (by decide) (by decide)), if_pos (hhi 7 (by decide) (by decide))]
+    decide +kernel
+  · rw [if_neg (Nat.not_lt.mpr (hlo 0 (by decide))), if_neg (Nat.not_lt.mpr (hlo 1 (by decide))), if_neg (Nat.not_lt.mpr (hlo 2 (by decide))), if_neg (Nat.not_lt.mpr (hlo 3 (by decide))),
+      if_neg (Nat.not_lt.mpr (hlo 4 (by decide))), if_pos (hhi 5 (by decide) (by decide)), if_pos (hhi 6 (by decide) (by decide)), if_pos (hhi 7 (by decide) (by decide))]
+    decide +kernel
+  · rw [if_neg (Nat.not_lt.mpr (hlo 0 (by decide))), if_neg (Nat.not_lt.mpr (hlo 1 (by decide))), if_neg (Nat.not_lt.mpr (hlo 2 (by decide))), if_neg (Nat.not_lt.mpr (hlo 3 (by decide))),
+      if_neg (Nat.not_lt.mpr (hlo 4 (by decide))), if_neg (Nat.not_lt.mpr (hlo 5 (by decide))), if_pos (hhi 6 (by decide) (by decide)), if_pos (hhi 7 (by decide) (by decide))]
+    decide +kernel
+  · rw [if_neg (Nat.not_lt.mpr (hlo 0 (by decide))), if_neg (Nat.not_lt.mpr (hlo 1 (by decide))), if_neg (Nat.not_lt.mpr (hlo 2 (by decide))), if_neg (Nat.not_lt.mpr (hlo 3 (by decide))),
+      if_neg (Nat.not_lt.mpr (hlo 4 (by decide))), if_neg (Nat.not_lt.mpr (hlo 5 (by decide))), if_neg (Nat.not_lt.mpr (hlo 6 (by decide))), if_pos (hhi 7 (by decide) (by decide))]
+    decide +kernel
 
 theorem andI64_neg8 {k0 : Nat} (hk0 : k0 < 8) : andI64 ((8 * k0 + 7 : Nat) : Int) (-8) = ((8 * k0 : Nat) : Int) := by
   have hk : k0 = 0 ∨ k0 = 1 ∨ k0 = 2 ∨ k0 = 3 ∨ k0 = 4 ∨ k0 = 5 ∨ k0 = 6 ∨ k0 = 7 := by omega
@@ -112,7 +138,7 @@ theorem prev_count (w k0 : Nat) (hk0 : k0 < 8) :
     omega
 
 /-- the code after `TrailingZeros64`, for the byte `k0` that contains the `i`-th 1-bit -/
-theorem sel64Tail_spec (w i k0 : Nat) (hw : w < 2 ^ 64) (hk0 : k0 < 8) (hlo : popc w (8 * k0) ≤ i)
+theorem sel64Tail_spec (w i k0 : Nat) (hk0 : k0 < 8) (hlo : popc w (8 * k0) ≤ i)
     (hhi : i < popc w (8 * (k0 + 1))) :
     ∃ r, sel64Tail w (indexSelectU64 w) i ((8 * k0 + 7 : Nat) : Int) = some (((8 * k0 + r : Nat) : Int), 0) ∧
       IsSel w i (8 * k0 + r) ∧ r < 8 := by
@@ -137,10 +163,14 @@ theorem sel64Tail_spec (w i k0 : Nat) (hw : w < 2 ^ 64) (hk0 : k0 < 8) (hlo : po
     unfold sel64Tail
     rw [andI64_neg8 hk0, prev_count w k0 hk0, toU64_ofNat_lt (by omega), eb, es, subU64,
       sub64_of_le hlo (by simp only [M64]; omega), ea, tblSelect8_ofNat, hr]
-    have e3 : toI32 (r : Int) = r := toI32_ofNat_lt (by omega)
-    have e4 : toI32 ((8 * k0 : Nat) : Int) = ((8 * k0 : Nat) : Int) := toI32_ofNat_lt (by omega)
-    have e5 : addI32 (r : Int) ((8 * k0 : Nat) : Int) = ((r + 8 * k0 : Nat) : Int) := addI32_ofNat (by omega)
-    simp only [Option.bind_some, e3, e4, e5, Nat.add_comm r]
+    have hlt1 : r < 2147483648 := by omega
+    have hlt2 : 8 * k0 < 2147483648 := by omega
+    have hlt3 : r + 8 * k0 < 2147483648 := by omega
+    have e3 : toI32 (r : Int) = r := toI32_ofNat_lt hlt1
+    have e4 : toI32 ((8 * k0 : Nat) : Int) = ((8 * k0 : Nat) : Int) := toI32_ofNat_lt hlt2
+    have e5 : addI32 (r : Int) ((8 * k0 : Nat) : Int) = ((r + 8 * k0 : Nat) : Int) := addI32_ofNat hlt3
+    show some (addI32 (toI32 (r : Int)) (toI32 ((8 * k0 : Nat) : Int)), (0 : Int)) = _
+    rw [e3, e4, e5, Nat.add_comm r]
   · refine isSel_high hlo (isSel_congr (n := 8) (fun j hj => ?_) hr8 hs)
     have e2 : (256 : Nat) = 2 ^ 8 := by decide
     rw [byteOf, e2, Nat.testBit_mod_two_pow]
@@ -152,18 +182,26 @@ theorem find_byte (w i : Nat) (hi : i < popc w 64) :
   by_cases h0 : i < popc w 8
   · exact ⟨0, by decide, Nat.zero_le _, h0⟩
   by_cases h1 : i < popc w 16
-  · exact ⟨1, by decide, by omega, h1⟩
+  · exact ⟨1, by decide, (by omega : popc w 8 ≤ i), h1⟩
   by_cases h2 : i < popc w 24
-  · exact ⟨2, by decide, by omega, h2⟩
+  · exact ⟨2, by decide, (by omega : popc w 16 ≤ i), h2⟩
   by_cases h3 : i < popc w 32
-  · exact ⟨3, by decide, by omega, h3⟩
+  · exact ⟨3, by decide, (by omega : popc w 24 ≤ i), h3⟩
   by_cases h4 : i < popc w 40
-  · exact ⟨4, by decide, by omega, h4⟩
+  · exact ⟨4, by decide, (by omega : popc w 32 ≤ i), h4⟩
   by_cases h5 : i < popc w 48
-  · exact ⟨5, by decide, by omega, h5⟩
+  · exact ⟨5, by decide, (by omega : popc w 40 ≤ i), h5⟩
   by_cases h6 : i < popc w 56
-  · exact ⟨6, by decide, by omega, h6⟩
-  · exact ⟨7, by decide, by omega, hi⟩
+  · exact ⟨6, by decide, (by omega : popc w 48 ≤ i), h6⟩
+  · exact ⟨7, by decide, (by omega : popc w 56 ≤ i), hi⟩
+
+theorem indexSelectU64_eq (w : Nat) :
+    indexSelectU64 w = pack [128 + popc w 8, 128 + popc w 16, 128 + popc w 24, 128 + popc w 32, 128 + popc w 40,
+      128 + popc w 48, 128 + popc w 56, 128 + popc w 64] := by
+  have hle : ∀ n, n ≤ 64 → popc w n < 128 := fun n hn => Nat.lt_of_le_of_lt (popc_le w n) (by omega)
+  rw [indexSelectU64, or128' (hle 8 (by decide)), or128' (hle 16 (by decide)), or128' (hle 24 (by decide)),
+    or128' (hle 32 (by decide)), or128' (hle 40 (by decide)), or128' (hle 48 (by decide)),
+    or128' (hle 56 (by decide)), or128' (hle 64 (by decide))]
 
 theorem isSel_unique {w k r r' : Nat} (h : IsSel w k r) (h' : IsSel w k r') : r = r' := by
   have key : ∀ {a b : Nat}, IsSel w k a → IsSel w k b → ¬ a < b := by
@@ -182,23 +220,22 @@ open Tie7Swar
 
 /-- Domain: every uint64 `w`, the index built by `indexSelectU64` for the same word, and `i` below the number of
     1-bits of `w` (so `i ≤ 63`).  The result is `(p, 0)` where `p` is the position of the `i`-th (from 0) 1-bit:
-    `w.testBit p` and exactly `i` 1-bits below `p` (`C02L.IsSel w i p`).  No panic: the table index is `< 2048`. -/
-theorem Tie_bitmap_selectU64Indexed (w i : Nat) (hw : w < 2 ^ 64) (hi : i < popc w 64) :
+    `w.testBit p` and exactly `i` 1-bits below `p` (`C02L.IsSel w i p`).  No panic: the table index is `< 2048`.
+    (`w < 2^64` is the representation invariant of the `uint64` argument; the proof does not use it, because the
+    model index is defined from `popc w _` and the code only looks at `w >> 8k & 0xff` for `k < 8`.) -/
+theorem Tie_bitmap_selectU64Indexed (w i : Nat) (_hw : w < 2 ^ 64) (hi : i < popc w 64) :
     ∃ p : Nat, Gen.Ssa7.bitmap_selectU64Indexed w (indexSelectU64 w) i = some ((p : Int), 0) ∧
       p < 64 ∧ w.testBit p = true ∧ popc w p = i := by
   obtain ⟨k0, hk0, hlo, hhi⟩ := find_byte w i hi
-  obtain ⟨r, hr, hs, hr8⟩ := sel64Tail_spec w i k0 hw hk0 hlo hhi
+  obtain ⟨r, hr, hs, hr8⟩ := sel64Tail_spec w i k0 hk0 hlo hhi
   have htz : trailingZeros64 (sel64Bigger (indexSelectU64 w) i) = ((8 * k0 + 7 : Nat) : Int) := by
-    have hle : ∀ n, n ≤ 64 → popc w n < 128 := fun n hn => Nat.lt_of_le_of_lt (popc_le w n) (by omega)
-    unfold trailingZeros64 indexSelectU64
-    rw [or128' (hle 8 (by decide)), or128' (hle 16 (by decide)), or128' (hle 24 (by decide)),
-      or128' (hle 32 (by decide)), or128' (hle 40 (by decide)), or128' (hle 48 (by decide)),
-      or128' (hle 56 (by decide)), or128' (hle 64 (by decide))]
-    congr 1
-    exact bigger_tz (fun k => popc w (8 * (k + 1))) i k0 hk0
-      (fun j hj => Nat.le_trans (popc_le w _) (by omega))
-      (fun j hj => Nat.le_trans (popc_mono w (by omega)) hlo)
-      (fun j hj _ => Nat.lt_of_lt_of_le hhi (popc_mono w (by omega)))
+    have h : tz (sel64Bigger (pack [128 + popc w 8, 128 + popc w 16, 128 + popc w 24, 128 + popc w 32,
+        128 + popc w 40, 128 + popc w 48, 128 + popc w 56, 128 + popc w 64]) i) 64 = 8 * k0 + 7 :=
+      bigger_tz (fun k => popc w (8 * (k + 1))) i k0 hk0
+        (fun j hj => Nat.le_trans (popc_le w _) (by omega))
+        (fun j hj => Nat.le_trans (popc_mono w (by omega)) hlo)
+        (fun j hj _ => Nat.lt_of_lt_of_le hhi (popc_mono w (by omega)))
+    rw [trailingZeros64, indexSelectU64_eq, h]
   refine ⟨8 * k0 + r, ?_, by omega, hs.1, hs.2⟩
   rw [selectU64Indexed_eq, htz, hr]
 
@@ -209,6 +246,25 @@ theorem Tie_bitmap_selectU64Indexed_selWord (w i : Nat) (hw : w < 2 ^ 64) (hi : 
   obtain ⟨r, hr, hs, _⟩ := selWord_spec hi
   rw [hp, hr, isSel_unique hs ⟨h1, h2⟩]
   rfl
+
+/-- against the specification `ones` of package bitmap, for the one-word bitmap `[w]`: the result is entry `i` of the
+    ascending list of 1-bit positions -/
+theorem Tie_bitmap_selectU64Indexed_ones (w i : Nat) (hw : w < 2 ^ 64) (hi : i < popc w 64) :
+    ∃ p : Nat, Gen.Ssa7.bitmap_selectU64Indexed w (indexSelectU64 w) i = some ((p : Int), 0) ∧
+      (ones [w])[i]? = some p := by
+  obtain ⟨p, hp, hlt, h1, h2⟩ := Tie_bitmap_selectU64Indexed w i hw hi
+  refine ⟨p, hp, ?_⟩
+  have hb : bitAt [w] p = true := by
+    have := bitAt_word (ws := [w]) (k := 0) (j := p) (w := w) rfl hlt
+    simp only [Nat.mul_zero, Nat.zero_add] at this
+    rw [this, h1]
+  have hr : rank [w] p = i := by
+    have := rank_word (ws := [w]) (k := 0) (w := w) rfl p (by omega)
+    simp only [Nat.mul_zero, Nat.zero_add, rank] at this
+    rw [this, h2]
+  have := ones_rank hb
+  rw [hr] at this
+  exact this
 
 example : Gen.Ssa7.bitmap_selectU64Indexed 0x8000000000000101 (indexSelectU64 0x8000000000000101) 2 = some (63, 0) := by
   decide +kernel
@@ -221,11 +277,13 @@ example : Gen.Ssa7.bitmap_selectU64Indexed 0x12 (indexSelectU64 0x12) 1 = some (
   no byte of the difference keeps its bit 7, `biggerBits = 0`, `TrailingZeros64 = 64`, `ithU8 = 64`, `w >> 64 = 0`,
   the count subtracted is the total `popc w 64`, and the lookup is `select8Lookup[i - popc w 64]`: while
   `i - popc w 64 < 8` this is row 0 of the table (all entries 8) and the result is `(72, 0)` — not a position, and
-  not the `64` of the commented-out branch; beyond that the lookup reads rows of other bytes (e.g. `65` below), and a
+  not the `64` of the commented-out branch; beyond that the lookup reads rows of other bytes (e.g. `(65, 0)` for `w = 0`, `i = 16` below), and a
   large enough `findIth` indexes past the 2048 entries: a panic. -/
 example : Gen.Ssa7.bitmap_selectU64Indexed 0x12 (indexSelectU64 0x12) 2 = some (72, 0) := by decide +kernel
 example : Gen.Ssa7.bitmap_selectU64Indexed 0 (indexSelectU64 0) 0 = some (72, 0) := by decide +kernel
-example : Gen.Ssa7.bitmap_selectU64Indexed 0 (indexSelectU64 0) 24 = some (65, 0) := by decide +kernel
+example : Gen.Ssa7.bitmap_selectU64Indexed 0 (indexSelectU64 0) 16 = some (65, 0) := by decide +kernel
 example : Gen.Ssa7.bitmap_selectU64Indexed 0 (indexSelectU64 0) 3000 = none := by decide +kernel
+
+example := Tie_bitmap_selectU64Indexed 0x8000000000000101 2 (by decide) (by decide +kernel)
 
 end Low
